@@ -17,7 +17,14 @@ analysed twice."""
 import ast, os, copy
 
 ALIAS_CALLS = {'asarray', 'asanyarray', 'atleast_1d', 'atleast_2d', 'atleast_3d', 'ravel', 'reshape', 'squeeze', 'view',
-               'transpose', 'broadcast_to', 'ascontiguousarray', 'swapaxes', 'moveaxis', 'diagonal'}
+               'transpose', 'broadcast_to', 'ascontiguousarray', 'swapaxes', 'moveaxis', 'diagonal',
+               'flip', 'flipud', 'fliplr', 'rot90', 'expand_dims', 'rollaxis', 'real', 'imag', 'asfarray', 'asarray_chkfinite'}
+# calls that alias their argument only when told not to copy
+COPY_FALSE_CALLS = {'astype', 'array'}
+BINARY_UFUNCS = {'add', 'subtract', 'multiply', 'divide', 'true_divide', 'floor_divide', 'power', 'maximum', 'minimum', 'mod', 'fmod',
+                 'arctan2', 'hypot', 'logical_and', 'logical_or', 'greater', 'less', 'equal', 'dot', 'matmul', 'copysign', 'fmax', 'fmin'}
+UNARY_UFUNCS = {'sqrt', 'exp', 'log', 'abs', 'absolute', 'floor', 'ceil', 'round', 'rint', 'negative', 'square', 'sin', 'cos', 'tan',
+                'conj', 'conjugate', 'sign', 'reciprocal', 'fix', 'trunc', 'clip', 'cumsum', 'cumprod'}
 VIEW_ATTRS = {'T', 'real', 'imag', 'flat'}
 SCALAR_ATTRS = {'shape', 'size', 'ndim', 'dtype', 'itemsize', 'nbytes', 'start', 'stop', 'step'}
 WRITE_FUNCS = {'putmask', 'place', 'copyto', 'fill_diagonal', 'put', 'put_along_axis'}
@@ -34,6 +41,9 @@ def _callname(c):
 class FnScan:
     """one function: may-alias state `var -> set(roots)`; roots are parameter names, 'cache:<fn>', 'global:<name>'"""
 
+    ret_alias = {}        # bare helper name -> [(positional index | None, parameter name)] it returns an alias of (set by scan())
+    rng_imports = set()   # names imported with `from numpy.random import …`
+
     def __init__(self, mod, qual, node, cached, module_mut, is_method):
         self.mod, self.qual, self.node = mod, qual, node
         self.cached, self.module_mut = cached, module_mut
@@ -47,6 +57,7 @@ class FnScan:
         self.captures = set()      # (attribute, parameter): attribute of self initialised as an alias of a parameter
         self.global_rng = set()    # np.random.<fn> names
         self.seeded = False
+        self.returns = set()       # parameters the returned value may be (a view of)
         self.calls = []            # (callee bare name, [(position or keyword, roots)], receiver roots)
         self.state0 = {p: {p} for p in self.params}
         self.locals = set(self.params)
@@ -73,6 +84,22 @@ class FnScan:
         if isinstance(e, ast.Call):
             n = _callname(e)
             if n in self.cached: return {'cache:' + n}
+            fsrc0 = ast.unparse(e.func)
+            if fsrc0 in ('copy.copy', 'copy') and e.args: return self.roots(e.args[0], st)     # shallow copy shares every attribute
+            if n in COPY_FALSE_CALLS and any(kw.arg == 'copy' and isinstance(kw.value, ast.Constant) and kw.value.value is False for kw in e.keywords):
+                if isinstance(e.func, ast.Attribute) and not (isinstance(e.func.value, ast.Name) and e.func.value.id in ('np', 'numpy')):
+                    return self.roots(e.func.value, st)
+                return self.roots(e.args[0], st) if e.args else set()
+            if n in self.ret_alias:      # lentil helper that returns (a view of) one of its arguments
+                out = set()
+                want_method = isinstance(e.func, ast.Attribute) and not fsrc0.startswith('lentil.')
+                for pos, kwn, is_m in self.ret_alias[n]:
+                    if is_m != want_method: continue
+                    if pos is not None and pos < len(e.args): out |= self.roots(e.args[pos], st)
+                    for kw in e.keywords:
+                        if kw.arg == kwn: out |= self.roots(kw.value, st)
+                    if kwn == 'self' and isinstance(e.func, ast.Attribute): out |= self.roots(e.func.value, st)
+                return out
             if n in ALIAS_CALLS:
                 if isinstance(e.func, ast.Attribute) and not (isinstance(e.func.value, ast.Name) and e.func.value.id in ('np', 'numpy')):
                     return self.roots(e.func.value, st)       # x.reshape(...)
@@ -99,6 +126,11 @@ class FnScan:
                 else: self.global_rng.add(n)
             for kw in c.keywords:
                 if kw.arg == 'out': self.w(self.roots(kw.value, st), 'out=', c)
+            if fsrc.startswith(('np.', 'numpy.')):        # positional `out` of ufuncs / np.dot
+                k_out = 2 if n in BINARY_UFUNCS else 1 if n in UNARY_UFUNCS and n not in ('clip', 'round') else None
+                if k_out is not None and len(c.args) > k_out: self.w(self.roots(c.args[k_out], st), 'positional out', c)
+            if n in self.rng_imports or n == 'rvs' and not any(kw.arg == 'random_state' for kw in c.keywords):
+                self.global_rng.add(n)
             if n in WRITE_FUNCS and fsrc.startswith(('np.', 'numpy.')) and c.args:
                 self.w(self.roots(c.args[0], st), 'np.' + n, c)
             recv = set()
@@ -187,6 +219,11 @@ class FnScan:
             for h in s.handlers: out = self.join(out, self.block(h.body, copy.deepcopy(out)))
             out = self.join(out, self.block(s.orelse, copy.deepcopy(a)))
             return self.block(s.finalbody, out)
+        if isinstance(s, ast.Return):
+            if s.value is not None:
+                self.visit_calls(s.value, st)
+                self.returns |= {r for r in self.roots(s.value, st) if r in self.params}
+            return st
         if isinstance(s, ast.Delete):
             for t in s.targets:
                 if isinstance(t, ast.Subscript): self.w(self.roots(t.value, st), 'del x[...]', s)
@@ -222,21 +259,39 @@ def scan(repo):
                 for t in node.targets:
                     if isinstance(t, ast.Name) and t.id != '__all__':
                         module_state.append(f'{m}.{t.id}'); mut_by_mod[m].add(t.id)
-    scans = {}
-    classes = {}          # bare class name -> {'qual':…, 'bases':[bare names]}
+    FnScan.rng_imports = set()
     for m, tree in mods.items():
-        def walk(body, prefix, cls):
-            for node in body:
-                if isinstance(node, (ast.FunctionDef, ast.AsyncFunctionDef)):
-                    q = f'{prefix}.{node.name}'
-                    sc = FnScan(m, q, node, cached_names, mut_by_mod[m], cls is not None).run()
-                    sc.cls = cls
-                    scans[q] = sc
-                    walk(node.body, q, None)
-                elif isinstance(node, ast.ClassDef):
-                    classes[node.name] = {'qual': f'{prefix}.{node.name}', 'bases': [ast.unparse(b).split('.')[-1] for b in node.bases]}
-                    walk(node.body, f'{prefix}.{node.name}', node.name)
-        walk(tree.body, m, None)
+        for node in ast.walk(tree):
+            if isinstance(node, ast.ImportFrom) and node.module and node.module.startswith('numpy.random'):
+                FnScan.rng_imports |= {a.asname or a.name for a in node.names if a.name not in RNG_OK}
+    FnScan.ret_alias = {}
+    def build():
+        scans = {}
+        classes = {}
+        for m, tree in mods.items():
+            def walk(body, prefix, cls):
+                for node in body:
+                    if isinstance(node, (ast.FunctionDef, ast.AsyncFunctionDef)):
+                        q = f'{prefix}.{node.name}'
+                        sc = FnScan(m, q, node, cached_names, mut_by_mod[m], cls is not None).run()
+                        sc.cls = cls
+                        scans[q] = sc
+                        walk(node.body, q, None)
+                    elif isinstance(node, ast.ClassDef):
+                        classes[node.name] = {'qual': f'{prefix}.{node.name}', 'bases': [ast.unparse(b).split('.')[-1] for b in node.bases]}
+                        walk(node.body, f'{prefix}.{node.name}', node.name)
+            walk(tree.body, m, None)
+        return scans, classes
+    scans, classes = build()
+    # one-level return-alias summaries: a lentil function that returns (a view of) one of its parameters
+    ra = {}
+    for q, sc in scans.items():
+        if sc.returns and not sc.is_init:
+            for prm in sc.returns:
+                ps = sc.params[1:] if sc.params[:1] in (['self'], ['cls']) else sc.params
+                ra.setdefault(sc.node.name, []).append((ps.index(prm) if prm in ps else None, prm, sc.cls is not None))
+    FnScan.ret_alias = ra
+    scans, classes = build()
     by_name = {}
     for q, s in scans.items(): by_name.setdefault(s.node.name, []).append(s)
 
